@@ -61,6 +61,7 @@ type FuncSpec struct {
 	CutAfter    []string // "NAME#k": paths end after this call (only the prefix is under contract)
 	Names       []string // explicit receiver/parameter names given in the key: "T.M(recv, a, b)"
 	Implements  string   // key of the interface-method contract this function must satisfy
+	Reveal      []string // opaque spec functions whose definition this proof needs
 }
 
 // splitKeyNames splits "Type.Method(recv, a, b)" into the key and the explicit names.
@@ -118,6 +119,7 @@ type SpecFun struct {
 	Src    string
 	PkgPath string
 	Line   string
+	Opaque bool // applied as an uninterpreted function unless the function under proof reveals it
 }
 
 type Axiom struct {
@@ -280,6 +282,10 @@ func (cs *Contracts) parseFile(fset *token.FileSet, f *ast.File, pkgPath string)
 		case "implements":
 			if cur != nil {
 				cur.Implements = rest
+			}
+		case "reveal":
+			if cur != nil {
+				cur.Reveal = append(cur.Reveal, strings.Fields(strings.ReplaceAll(rest, ",", " "))...)
 			}
 		case "trusted":
 			if cur != nil {
@@ -464,6 +470,11 @@ func (cs *Contracts) parseFile(fset *token.FileSet, f *ast.File, pkgPath string)
 				continue
 			}
 			name := strings.TrimSpace(rest[:lp])
+			opaque := false
+			if strings.HasPrefix(name, "opaque ") {
+				opaque = true
+				name = strings.TrimSpace(strings.TrimPrefix(name, "opaque "))
+			}
 			// find matching paren
 			depth, rp := 0, -1
 			for k := lp; k < len(rest); k++ {
@@ -487,7 +498,7 @@ func (cs *Contracts) parseFile(fset *token.FileSet, f *ast.File, pkgPath string)
 				continue
 			}
 			tail := strings.TrimSpace(rest[rp+1:])
-			sf := &SpecFun{Name: name, Params: ps, Src: ln, PkgPath: pkgPath, Line: loc}
+			sf := &SpecFun{Name: name, Params: ps, Src: ln, PkgPath: pkgPath, Line: loc, Opaque: opaque}
 			retSrc, bodySrc := tail, ""
 			if kw == "spec" {
 				e := strings.Index(tail, "=")
